@@ -53,11 +53,36 @@ code file deleted; caught on g_report under the single option -M); -h changing t
 t_dc/t_68kfloat.. and g_packed under the single option -h); -s also setting DefRelaxedMode; debug bookkeeping (-g) advancing the PC of
 instructions longer than 2; -u shortening 3-byte instructions; ASCMD=@keyfile implying -relaxed; LC_ALL=de* implying
 -relaxed.  (A mutant naming the -E log like the code file loses diagnostics but not code: not C17's business.)
+
+Extension "command line layer" (checks/ext_cmdline.py, spec/CmdLine*.tla; last phase of main()): the clause "the place an
+option is given (command line, ASCMD variable, @key file) never alters the code file" one level down, for ANY option and
+not only the report options: cmdarg.c ProcessCMD / ProcessParam / DecodeLine / ProcessFile and a representative part of
+the option tables of asl (q quiet L l x U u D i o cpu g), p2bin (q quiet s l r f) and plist (q quiet) are transcribed
+into TLA+ (scanner with Unprocessed[] mask, look-ahead argument, whole word before letters, `#`/`~` prefixes, blank /
+tab tokeniser, key files spliced in place, ErrProc = exit) next to the manual's grammar (Flatten / Parse / Meaning = fold
+of the documented meaning over the ordered occurrences: last wins for scalars, accumulation and removal for -D -i -o
+-f, counter for -x).  TLC checks scan = fold and place-independence over all sequences of <= 2 (quick) / <= 3, core
+alphabet <= 4 (thorough) occurrence templates (asl: 42, p2bin: 21, plist: 10) in 8 + 2n-1 placements each (argv with the
+files first / last, ASCMD, key file from argv / from ASCMD / on one line with blanks, tabs, both, env | argv split, one
+occurrence moved into a key file), and prints the cases; about 8 500 (quick) / 70 000 (thorough) of them are replayed
+into the real asl (probe source showing -cpu in the header byte, -D / -U as data bytes, -i through the include file
+found, -o through file names, -L -l -g -q -x through outputs, status), p2bin and plist (against a plain-argv run of the
+configuration TLC expects), plus no parameter at all and 256 / 257 / 300 / 1500 parameters.  Verdicts: exit 4 / 1 and
+nothing produced after a parameter error, the manual-stated components of the outcome, byte-identical code files for the
+same occurrences in different places, no abnormal end; everything else is drift.  Named deviations of the pinned code:
+QuietCounter, DefFirstWins, ToolFilesArgv, BlankBeforeTab (manual silent), and three findings with proposed fixes
+(proposed_fixes/C17-remove-include-path, C17-tool-missing-number, C17-too-many-parameters; known_findings/C17-cmdline.json):
+`+i dir` empties the include path; p2bin -l / -e and p2hex -R / -e take a missing argument as 0 and drop the next
+parameter; more than 256 parameters overflow the Unprocessed[] mask (p2bin SIGSEGV).
+Mutations tried on scratch copies (all pass the 201 golden tests, `./check C17 --tier quick` exits 1 for each): argv
+scanned before ASCMD; DecodeLine not skipping a consumed argument; ParamError exit(2); look-ahead not blanked for a
+following `+switch`; -o names handed out in reverse order.
 """
 import json
 import os
 import re
 
+from checks import ext_cmdline
 from vlib import aslrun, build, drvrun, tlc
 from vlib.aslrun import INCLUDE
 from vlib.common import CheckError, Phase, log, rng
@@ -454,6 +479,7 @@ def main(tier):
     rep.traces(len(jobs))
     for (s, tag, job) in jobs[2:5]:
         rep.sample({"source": s["name"], "argv": job["argv"], "env": job.get("env"), "cwd": job.get("cwd")})
+    ext_cmdline.run(rep, bld, tier)        # extension: the command-line / option layer (checks/ext_cmdline.py)
     return rep.finish(
         rule="configurations = TLC-built designs over 25 factors (report options, option source, cwd, -o, LANG/LC_ALL): "
              "quick = all 201 golden + 16 generated sources, each under a rotating 1-wise cover of the pairwise sample + "
